@@ -11,11 +11,15 @@ def run(ctx):
     quick = ctx.quick()
     # 1. design level: every DAG over Nodes, any sharing, a crash anywhere, batches of Ideal puts
     base = ctx.tlc("TrieCommit", cfg="TrieCommit_quick.cfg" if quick else "TrieCommit.cfg", coverage=not quick, timeout=1500)
-    require_actions(base, ["InsertTrie", "CommitBegin", "SkipKnown", "Descend", "PutNode", "Flush", "CommitEnd", "Crash"])
+    require_actions(base, ["InsertTrie", "CommitBegin", "SkipKnown", "Descend", "PutNode", "Flush", "CommitEnd", "Crash", "WriteFails"])
     # negative control: a pre-order walk must break Closed (the invariant is not vacuous)
     neg = ctx.tlc("TrieCommit", cfg="TrieCommit_preorder.cfg", allow_violation=True)
     if not neg["error"] or "Closed" not in neg["error"]:
         raise Inconclusive("negative control: the pre-order walk did not violate Closed in the model")
+    # second negative control: a put-once flag on the cached node must break durability once a write fails
+    neg2 = ctx.tlc("TrieCommit", cfg="TrieCommit_dedup.cfg", allow_violation=True)
+    if not neg2["error"] or not ("DurableKept" in neg2["error"] or "Closed" in neg2["error"]):
+        raise Inconclusive("negative control: the flagged-node shortcut with failing writes did not violate durability in the model")
     # 2. the real write sequences, every prefix re-opened by the real code
     drv = ctx.build("c03")
     procs = 4
@@ -27,12 +31,14 @@ def run(ctx):
         traces.append(tp)
         argv = [drv, "--out", tp, "--scratch", os.path.join(ctx.scratch, "node%d" % k), "--histories", str(per),
                 "--blocks", str(blocks), "--mutations", str((2500 if k % 2 == 0 else 1500) if quick else (5000 if k % 2 == 0 else 2000)), "--accounts", str(300 if k < 2 else 120),
-                "--keys", str(14 if k < 2 else 30), "--salt", str(k)]
+                "--keys", str(14 if k < 2 else 30), "--salt", str(k),
+                # the first histories again, once per physical write, with that write returning an error
+                "--faultruns", str(2 if quick else 6)]
         if os.environ.get("VERIF_C03_CORRUPT"):
             argv += ["--corrupt", os.environ["VERIF_C03_CORRUPT"]]
         argvs.append(argv)
     outs = ctx.run_parallel(argvs)
-    tot = {"writes": 0, "nodes": 0, "reopens": 0}
+    tot = {"writes": 0, "nodes": 0, "reopens": 0, "failedWrites": 0, "successAfterFailure": 0}
     max_batches = 0
     kinds = {}
     for o in outs:
@@ -69,6 +75,8 @@ def run(ctx):
     vacuous = []
     if max_batches < 3:
         vacuous.append("no commit was split over at least 3 batch writes")
+    if tot["failedWrites"] == 0 or tot["successAfterFailure"] == 0:
+        vacuous.append("no physical write failed / no commit reported success after a failed write")
     if older_while_newer_absent == 0 or present == 0 or rewritten == 0:
         vacuous.append("no prefix with an older root on disk during a later commit / no root re-opened / no shared node")
     for k in ("SetData", "AddBalance", "SetNonce", "SetCode", "CloneStorage", "Suicide", "CreateAccount", "CodeOnlyUniqueCode", "CodeOnlySharedCode"):
@@ -91,6 +99,8 @@ def run(ctx):
                 "cases are distinct by construction (one per (history, k, root))",
         "samples": samples,
         "crash_points": prefixes,
+        "failed_writes_injected": tot["failedWrites"],
+        "commits_reported_successful_after_a_failed_write": tot["successAfterFailure"],
         "crash_points_inside_a_commit_with_older_roots_on_disk": older_while_newer_absent,
         "nodes_written": tot["nodes"],
         "nodes_written_again_shared": rewritten,
@@ -98,15 +108,17 @@ def run(ctx):
         "mutations_by_kind": kinds,
         "histories": procs * per,
         "blocks_per_history": blocks,
-        "states": base["distinct"] + neg["distinct"],
-        "transitions": base["generated"] + neg["generated"],
+        "states": base["distinct"] + neg["distinct"] + neg2["distinct"],
+        "transitions": base["generated"] + neg["generated"] + neg2["generated"],
         "traces_validated_against_impl": procs * per,
         "events_validated": total,
         "action_coverage": base["coverage"],
         "negative_control_preorder_violates_Closed": True,
+        "negative_control_put_once_flag_with_failing_write_violates_durability": True,
         "exhaustive": True,
         "explanation": "exhaustive over the prefixes of each recorded write sequence (every crash point between two physical writes); "
-                       "TrieCommit.tla exhaustive over all DAGs of the configured size with crashes anywhere",
+                       "plus, for the fault histories, every physical write failing once; "
+                       "TrieCommit.tla exhaustive over all DAGs of the configured size with crashes and failing writes anywhere",
     }
     finish(ctx, "fault_enumeration", coverage, [
         "a Batch.Write is atomic (xdb.Batch contract; LevelDB batch): crash points are between physical writes, not inside one",
@@ -116,5 +128,7 @@ def run(ctx):
         "one account in ten is a contract without any storage slot of its own (code, nonce, balance only), with code no other account has or code shared with storage-ful accounts",
         "expected content of a root = what the live AccountDB answered (Exist, nonce, balance, code, every slot of the universe) "
         "after IntermediateRoot(true) and before Commit(true) of that block",
-        "write errors of the store are not injected (the statement is about crashes, i.e. prefixes)",
+        "write errors: for some histories every physical write in turn returns an error once (nothing of that batch reaches the store, "
+        "the process goes on: retry of the same root for even write indices, next block on top for odd ones); every root whose commit "
+        "REPORTED success is then re-opened from the store alone",
     ])
